@@ -294,13 +294,25 @@ func ParseSpendPolicy(s string) (SpendPolicy, error) {
 	var err error // sticky
 	nextToken := func() string {
 		s = strings.TrimSpace(s)
-		i := strings.IndexAny(s, "(),[]")
-		if err != nil || i == -1 {
+		if err != nil {
 			return ""
 		}
-		t := s[:i]
-		s = s[i:]
-		return strings.TrimSpace(t)
+		// find the next delimiter, ignoring delimiters inside a quoted string
+		// (a non-alphanumeric key algorithm specifier is printed in quotes)
+		inQuote := false
+		for i := 0; i < len(s); i++ {
+			switch c := s[i]; {
+			case inQuote && c == '\\':
+				i++ // skip the escaped character
+			case c == '"':
+				inQuote = !inQuote
+			case !inQuote && strings.IndexByte("(),[]", c) >= 0:
+				t := s[:i]
+				s = s[i:]
+				return strings.TrimSpace(t)
+			}
+		}
+		return ""
 	}
 	consume := func(b byte) {
 		if err != nil {
